@@ -2298,6 +2298,7 @@ def preprocess_file(
     pp_defs: dict = None,
     include_dirs: set = None,
     debug: bool = False,
+    include_chain: tuple = (),
 ):
     # Look for and mark excluded preprocessor paths in file
     # Initial implementation only looks for "if" and "ifndef" statements.
@@ -2506,6 +2507,15 @@ def preprocess_file(
                 if os.path.isfile(include_path_tmp):
                     include_path = os.path.abspath(include_path_tmp)
                     break
+            # A file that includes itself, directly or through other files, is
+            # not read again (each level would read it once more: the work
+            # doubles with every `#include` line until the recursion limit)
+            chain = include_chain
+            if file_path is not None:
+                chain = chain + (os.path.abspath(file_path),)
+            if include_path in chain:
+                log.debug("%s !!! Recursive include skipped(%d)", line.strip(), i + 1)
+                include_path = None
             if include_path is not None:
                 try:
                     include_file = FortranFile(include_path)
@@ -2518,6 +2528,7 @@ def preprocess_file(
                             pp_defs=defs_tmp,
                             include_dirs=include_dirs,
                             debug=debug,
+                            include_chain=chain,
                         )
                         log.debug("!!! Completed parsing include file\n")
 
